@@ -25,6 +25,6 @@ func init() {
 		assumptions:   []string{"gcc 12 ASan/UBSan report every violation they instrument; UBSan's nonnull-attribute check is off (memset/memcpy of length 0 with a null pointer is not a dereference; see DESIGN 6)", "overflows that stay inside one struct field array and unsigned wrap-around in std/ are invisible (no checked build)"},
 		minNontrivial: 300,
 		quick:         tier{jobs: []job{{name: "std-safety", run: "^TestProp$", shards: 16, checks: 250, timeout: 25 * time.Minute}}},
-		thorough:      tier{jobs: []job{{name: "std-safety", run: "^TestProp$", shards: 16, checks: 20000, timeout: 120 * time.Minute}}},
+		thorough:      tier{jobs: []job{{name: "std-safety", run: "^TestProp$", shards: 16, checks: 6000, timeout: 120 * time.Minute}}},
 	})
 }
